@@ -742,6 +742,9 @@ func (interp *Interpreter) ast(f ast.Node) (string, *node, error) {
 				kind = typeDecl
 			case token.VAR:
 				kind = varDecl
+				if anc.node != nil && anc.node.kind == fileStmt {
+					a.Specs = splitVarSpecs(a.Specs)
+				}
 			}
 			st.push(addChild(&root, anc, pos, kind, aNop), nod)
 
@@ -937,6 +940,22 @@ func (interp *Interpreter) ast(f ast.Node) (string, *node, error) {
 
 	interp.roots = append(interp.roots, root)
 	return pkgName, root, err
+}
+
+// splitVarSpecs returns the variable specifications specs where each `a, b = x, y` is
+// replaced by `a = x` and `b = y`: at package level, each variable is initialized on its own.
+func splitVarSpecs(specs []ast.Spec) (res []ast.Spec) {
+	for _, s := range specs {
+		vs, ok := s.(*ast.ValueSpec)
+		if !ok || len(vs.Names) < 2 || len(vs.Values) != len(vs.Names) {
+			res = append(res, s)
+			continue
+		}
+		for i, name := range vs.Names {
+			res = append(res, &ast.ValueSpec{Names: []*ast.Ident{name}, Type: vs.Type, Values: vs.Values[i : i+1]})
+		}
+	}
+	return res
 }
 
 type astNode struct {
